@@ -4,7 +4,7 @@ from __future__ import annotations
 from ..core import Ctx
 from . import pipeline
 
-ACCOUNTING = {"rs2", "g2", "tp", "fp", "fn", "tn", "num_success_fail", "raised", "caller-list", "deprecated_divide_tp_fp", "deprecated_get_fn"}
+ACCOUNTING = {"rs2", "g2", "tp", "fp", "fn", "tn", "num_success_fail", "deprecated_get_fail_object_num", "raised", "caller-list", "deprecated_divide_tp_fp", "deprecated_get_fn"}
 
 
 def run(ctx: Ctx):
